@@ -322,7 +322,7 @@ builder_shape!(c11_builder_shape0, c11_builder_shape0_canary, 0, 5);
 // @sym the next operator after the prefix "P"
 // @bounds fixed prefix shape
 builder_shape_nc!(c11_builder_shape1, 1, 5);
-// @harness props=C01,C11 tier=quick cost=15 flags=nomem
+// @harness props=C01,C11 tier=thorough cost=600 flags=nomem
 // @replay builder_ops
 // @exec as c11_builder_shape0
 // @sym the next operator after the prefix "P -o"
